@@ -136,6 +136,9 @@ func main() {
 		m: &meta{Property: cmd, Tier: *tier, Seed: *seed, Distribution: map[string]int{}}}
 	defer cleanupScratch()
 	fn(e)
+	if os.Getenv("GMV_CHILD") != "" {
+		return
+	}
 	if e.m.Samples == nil {
 		e.m.Samples = []interface{}{}
 	}
